@@ -330,6 +330,9 @@ fn minimise<P: Property>(
                 if evals >= MINIMISE_EVALS {
                     break 'scenario;
                 }
+                if !p.valid(&c) {
+                    continue;
+                }
                 let (viol, reps) = evaluate_explicit(p, &c, &vectors);
                 evals += 1;
                 if let Some(v) = find(&viol, &current) {
